@@ -226,3 +226,36 @@ def inplace_on_state_values(ctx, funcs=None):
                     if k.arg == "out" and alias(k.value):
                         out.append((f, n, f"`{_U(n)[:70]}` writes its result into a tensor read from the State"))
     return out, holders
+
+
+def branch_always_raises(if_node) -> bool:
+    """Every path through the true branch of `if_node` ends in a raise (so taking the false branch loses no refusal)."""
+    import ast as _ast
+
+    def ends(body):
+        if not body:
+            return False
+        last = body[-1]
+        if isinstance(last, _ast.Raise):
+            return True
+        if isinstance(last, _ast.If):
+            return ends(last.body) and ends(last.orelse)
+        return False
+    return isinstance(if_node, _ast.If) and ends(if_node.body)
+
+
+def refusal_side_conditions(cfg, raise_node, is_own, text, context=()):
+    """Conditions under which a refusal (a `raise`) is reached, other than its own test.
+    Returns [(if_stmt, canonical test, 'requires' | 'skipped when')]: a test that must hold as well (the refusal fires for fewer
+    inputs), or a test that must fail whose branch does not itself refuse (inputs taking that branch are accepted).
+    `context`: confirmed side conditions, as `<test>` / `not:<test>`."""
+    out = []
+    for h, lab in cfg.if_guards(raise_node):
+        g = text(cfg.stmt[h].test)
+        if is_own(g):
+            continue
+        if lab and g not in context:
+            out.append((cfg.stmt[h], g, "requires"))
+        elif not lab and ("not:" + g) not in context and not branch_always_raises(cfg.stmt[h]):
+            out.append((cfg.stmt[h], g, "skipped when"))
+    return out
